@@ -408,7 +408,7 @@ var c13FrontierRatios = [][2]int{{7, 10}, {99, 100}, {2, 7}, {1, 10}, {5, 100}, 
 func c13GenFrontier(rng *rand.Rand, tier string, emit func(string)) {
 	n := 6
 	if tier == "thorough" {
-		n = 30
+		n = 12
 	}
 	for k := 0; k < n; k++ {
 		w := 1 + rng.Intn(16)
@@ -433,7 +433,7 @@ func c13GenFrontier(rng *rand.Rand, tier string, emit func(string)) {
 func c13GenX(rng *rand.Rand, tier string, emit func(string)) {
 	n := 10
 	if tier == "thorough" {
-		n = 40
+		n = 16
 	}
 	attrs := []string{"sample", "pcr", "sample", "well"}
 	evals := []int{0, 1, 2, 5, 20, 1000}
